@@ -45,6 +45,18 @@ def gen_case(seed, i):
         f["rf_under"] = nroots
     f["H"] = rng.random() < 0.2
     f["S"] = (not f["isolate"]) and rng.random() < 0.2
+    if f["isolate"] and rng.random() < 0.15:
+        # -S with --isolate, and one input path that is itself a symbolic link to a FILE (a copy of a scanned file
+        # stored outside the roots): a root of its own, reported as the link
+        regs = [e for e in world.entries if e["t"] == "f"]
+        if regs:
+            src = rng.choice(regs)
+            f["S"] = True
+            world.entries = [e for e in world.entries if e["t"] != "l"]     # no other links: one thing at a time
+            world.add_file("store/lt", dict(src["c"]))
+            world.add_symlink("lroot", "store/lt")
+            roots = list(roots)
+            roots.insert(rng.randint(0, len(roots) - 1), "lroot")
     if rng.random() < 0.15:
         t = rng.choice([x for x in xform.TRANSFORMS if "--in-place" not in x[1]])
         cfg["transform"] = t[0]
